@@ -15,7 +15,7 @@ INV = {
     "C20": ["RetryBound", "BackoffSequence", "RetryOnlyConnect", "LastErrorRaised", "NoRetryAfterEstablished"],
     "C10": ["TlsIffSecure", "SniAlpn", "ProtoChoice", "Routing"],
     "C16": ["TimeoutTag", "NoTimeoutMeansUnlimited"],
-    "C11": ["ConnectFirst", "NoHttpBeforeSocksSuccess", "RefusalStops", "ForwardAbsoluteForm", "SecretsOnProxyHopOnly", "CallerDataNotInConnect", "SocksAsConfigured"],
+    "C11": ["ConnectFirst", "NoHttpBeforeSocksSuccess", "RefusalStops", "ForwardAbsoluteForm", "SecretsOnProxyHopOnly", "CallerDataNotInConnect", "SocksAsConfigured", "MergedNotRepeated"],
 }
 VACUITY = {
     "C20": [("DevRetryAny", "RetryOnlyConnect")],
